@@ -53,7 +53,10 @@ def ggh_hash_nonplain(bits):
     total = 0
     for i, b in enumerate(bits):
         total = (total + b * SHA512_prng(i))
-        total.value = total.value % PRIME
+        if isinstance(total, int):
+            total = total % PRIME # only plain bits so far
+        else:
+            total.value = total.value % PRIME
     return total
 
 def rand_bits(count):
